@@ -885,14 +885,13 @@ func (it *interp) memStore(st *state, k string, v AV) {
 		}
 	}
 	if sv, ok := v.(*StructV); ok {
-		delete(st.mem, k)
 		if stt, ok := sv.T.Underlying().(*types.Struct); ok {
+			st.mem[k] = &Const{Zero: sv.T}
 			for i := 0; i < stt.NumFields() && i < len(sv.Fields); i++ {
 				if sv.Fields[i] != nil {
 					it.memStore(st, k+"."+stt.Field(i).Name(), sv.Fields[i])
 				}
 			}
-			st.mem[k] = &Expr{Op: "structmark", Name: k}
 		}
 		return
 	}
@@ -908,15 +907,36 @@ func (it *interp) valLookup(keys ...string) (AV, bool) {
 	return nil, false
 }
 
-func (it *interp) load(st *state, ad *Addr, t types.Type) AV {
-	k := ad.K
-	if v, ok := st.mem[k]; ok {
-		if e, isE := v.(*Expr); !(isE && e.Op == "structmark") {
-			return v
+func aggType(a AV) types.Type {
+	switch b := a.(type) {
+	case *Expr:
+		return b.T
+	case *StructV:
+		return b.T
+	case *Const:
+		return b.Zero
+	}
+	return nil
+}
+
+func fieldType(t types.Type, f string) types.Type {
+	if t == nil {
+		return nil
+	}
+	if stt, ok := derefType(t).Underlying().(*types.Struct); ok {
+		for i := 0; i < stt.NumFields(); i++ {
+			if stt.Field(i).Name() == f {
+				return stt.Field(i).Type()
+			}
 		}
 	}
+	return nil
+}
+
+func (it *interp) load(st *state, ad *Addr, t types.Type) AV {
+	k := ad.K
 	if stt, ok := t.Underlying().(*types.Struct); ok {
-		// assemble if any field known
+		// assemble if any field was stored individually
 		has := false
 		pre := k + "."
 		for mk := range st.mem {
@@ -933,13 +953,32 @@ func (it *interp) load(st *state, ad *Addr, t types.Type) AV {
 			return sv
 		}
 	}
-	// field of a stored aggregate symbol
-	if i := strings.LastIndex(k, "."); i > 0 {
-		if base, ok := st.mem[k[:i]]; ok {
-			if e, isE := base.(*Expr); !(isE && e.Op == "structmark") {
-				return it.project(base, k[i+1:], t)
-			}
+	if v, ok := st.mem[k]; ok {
+		return v
+	}
+	// field (path) of a stored aggregate
+	for i := strings.LastIndex(k, "."); i > 0; i = strings.LastIndex(k[:i], ".") {
+		base, ok := st.mem[k[:i]]
+		if !ok {
+			continue
 		}
+		comps := strings.Split(k[i+1:], ".")
+		cur := base
+		for ci, f := range comps {
+			ft := fieldType(aggType(cur), f)
+			if ci == len(comps)-1 {
+				ft = t
+			}
+			if ft == nil {
+				cur = nil
+				break
+			}
+			cur = it.project(cur, f, ft)
+		}
+		if cur != nil {
+			return cur
+		}
+		break
 	}
 	if v, ok := it.valLookup(k); ok {
 		return v
@@ -1155,7 +1194,13 @@ func (it *interp) evalInstr(st *state, fr *frame, in ssa.Value) AV {
 			return tp.Elems[v.Index]
 		}
 		e := &Expr{Op: "extract", Name: fmt.Sprint(v.Index), Args: []AV{t}, T: v.Type()}
-		if x, ok := it.valLookup(e.Key()); ok {
+		alias := e.Key()
+		if ce, ok := t.(*Expr); ok && ce.Op == "call" {
+			if i := strings.Index(ce.Name, "@"); i >= 0 {
+				alias = "call:" + ce.Name[:i] + "#" + fmt.Sprint(v.Index)
+			}
+		}
+		if x, ok := it.valLookup(e.Key(), alias); ok {
 			return x
 		}
 		return e
